@@ -357,6 +357,7 @@ Plan gen_w1(uint64_t seed, const std::string& tier, const std::string& focus) {
         case 3: pl.p["growth"] = r.uni(1e-11, 4e-11); pl.p["growth_sigma"] = pl.p["growth"] * r.uni(0.1, 0.5); pl.p["div_vol"] = V0 * r.uni(0.6, 1.05); pl.p["div_sigma"] = pl.p["div_vol"] * r.uni(0.01, 0.1); break;
         case 4: pl.p["growth"] = r.coin(0.5) ? r.uni(1e-11, 4e-11) : -r.uni(1e-12, 2e-11); pl.p["max_pressure"] = r.uni(5, 500); pl.p["min_vol"] = V0 * 0.3; break;
     }
+    if (focus == "C15") { pl.p.erase("div_vol"); pl.p.erase("div_sigma"); }   // sibling daughters share their interface and interact: divisions on teams are compared in W3 (population after cell_divider::run)
     if (r.coin(0.3)) pl.p["init_pressure"] = r.uni(10, 300);
     if (r.coin(0.2)) pl.p["area_elasticity"] = 1e-15;
     if (r.coin(0.2)) pl.p["bending"] = 2e-18;
